@@ -170,3 +170,74 @@ Theorem C20_truthy_meta_loader_refuted :
               snd a <> snd b.
 Proof. exact recompute_truthy_refuted. Qed.
 Print Assumptions C20_truthy_meta_loader_refuted.
+
+(* ---- what @deprecate does (model/Deprecate.v `deprecate`: the class takes the type identifier of its single parent,
+   ObjectType.deprecate core/types.py l.429-441; `deprecate_all`: the deprecations in the order python executes them).
+   The hypothesis `same_sig_class` of C20_deprecated_same_(full_)identifier is no longer assumed: it follows.
+
+   cs: the classes as declared (the deprecated class k and its replacement p declare the same parameters, in any order);
+   s1: the deprecations performed before `@deprecate class k(p)` (p itself may be among them: a class renamed twice),
+   s2: those performed afterwards (of other classes).  For every graph, every node x of class k, wherever it occurs:
+   writing the graph with the replacement class p changes the identifier of NO node (any hash function, cache state) *)
+Theorem C20_deprecate_same_identifier : forall H cs s1 k p s2 c pc h look n x,
+  nth_error cs k = Some c -> nth_error cs p = Some pc -> k <> p ->
+  Permutation (c_args c) (c_args pc) -> NoDup (map a_name (c_args c)) ->
+  (forall s, In s s2 -> fst s <> k /\ fst s <> p) ->
+  nth_error h n = Some x -> n_cls x = k ->
+  forall fuel m, raw_ident H (deprecate_all cs (s1 ++ (k, p) :: s2)) h look fuel m
+               = raw_ident H (deprecate_all cs (s1 ++ (k, p) :: s2)) (upd_nth h n (with_cls x p)) look fuel m.
+Proof. exact deprecate_same_identifier. Qed.
+Print Assumptions C20_deprecate_same_identifier.
+
+(* ... nor the full identifier - the name of the job directory - of any node *)
+Theorem C20_deprecate_same_full_identifier : forall H cs s1 k p s2 c pc h n x,
+  nth_error cs k = Some c -> nth_error cs p = Some pc -> k <> p ->
+  Permutation (c_args c) (c_args pc) -> NoDup (map a_name (c_args c)) ->
+  (forall s, In s s2 -> fst s <> k /\ fst s <> p) ->
+  wf_heap h -> nth_error h n = Some x -> n_cls x = k ->
+  forall fuel m d, (m < length h)%nat ->
+    full_pure H (deprecate_all cs (s1 ++ (k, p) :: s2)) h fuel m = Ok d ->
+    full_pure H (deprecate_all cs (s1 ++ (k, p) :: s2)) (upd_nth h n (with_cls x p)) fuel m = Ok d.
+Proof. exact deprecate_same_full_identifier. Qed.
+Print Assumptions C20_deprecate_same_full_identifier.
+
+(* ... and the params.json written before the deprecation is the file that would be written now (hypothesis `same_args`
+   of C20_repair_recomputes_identity)                                                                             *)
+Theorem C20_deprecate_keeps_arguments : forall cs steps, same_args cs (deprecate_all cs steps).
+Proof. exact (fun cs steps => deprecate_all_same_args steps cs). Qed.
+Print Assumptions C20_deprecate_keeps_arguments.
+
+(* ---- two directories stored under two FORMER identifiers of one configuration (excluded by the hypothesis "claimed
+   by no other directory" of C20_fix_reaches).  Link mode: the claimant examined first - no directory examined before
+   it recomputes to n - gets the new path, whatever is examined later: the repaired command examines the directories
+   holding a result first (fixes/C20-3), so the new identifier leads to a result when there is one                *)
+Theorem C20_first_claimant_reaches : forall o1 pr post w k d n,
+  wf w -> active w k d n -> lookup n w = None ->
+  (forall x dx, In x pr -> lookup x w = Some (Dir dx) -> d_recomp dx <> Some n) ->
+  let w' := fix_ws true false o1 (pr ++ k :: post) w in
+  exists d', resolve w' n = Some (k, d') /\ core d' = core d /\ incl (d_done d) (d_done d') /\
+             (In (k_name k) (d_done d) -> found w' n = true).
+Proof. exact first_claimant_reaches. Qed.
+Print Assumptions C20_first_claimant_reaches.
+
+(* THE LIMITATION: "every job directory stored under a former identifier" cannot be made reachable when two of them
+   hold the same configuration - there is one new path.  k1 never finished, k2 holds a result, both recompute to n
+   (free).  In both modes: listed k1 first, n leads to k1 and a re-submit finds no result although one exists; listed
+   k2 first, n leads to k2; the other directory is never what n leads to.                                          *)
+Theorem C20_two_former_identifiers_refuted :
+  wf tc_w /\ active tc_w tc_k1 tc_d1 tc_n /\ active tc_w tc_k2 tc_d2 tc_n /\ lookup tc_n tc_w = None /\
+  forall cl,
+    option_map (fun r => d_mark (snd r)) (resolve (fix_ws true cl [tc_k1; tc_k2] [tc_k1; tc_k2] tc_w) tc_n) = Some 101%Z /\
+    found (fix_ws true cl [tc_k1; tc_k2] [tc_k1; tc_k2] tc_w) tc_n = false /\
+    option_map (fun r => d_mark (snd r)) (resolve (fix_ws true cl [tc_k2; tc_k1] [tc_k2; tc_k1] tc_w) tc_n) = Some 102%Z /\
+    found (fix_ws true cl [tc_k2; tc_k1] [tc_k2; tc_k1] tc_w) tc_n = true.
+Proof. exact two_former_identifiers_refuted. Qed.
+Print Assumptions C20_two_former_identifiers_refuted.
+
+(* `--cleanup` moves the directory: the former path is gone (link mode keeps it).  Links towards it from outside
+   jobs/ (the experiment indices xp/<name>/jobs/..., read by `orphans`) dangle unless re-pointed (fixes/C20-4).  *)
+Theorem C20_cleanup_moves_former_path :
+  lookup xk (fix_ws true true [] [xk] xw) = None /\ lookup xn (fix_ws true true [] [xk] xw) <> None /\
+  exists d', lookup xk (fix_ws true false [] [xk] xw) = Some (Dir d').
+Proof. exact cleanup_moves_former_path. Qed.
+Print Assumptions C20_cleanup_moves_former_path.
